@@ -33,12 +33,37 @@ func vfNatsMuxMake(scn string) (func(), func(*vsched.Exec) (string, *vsched.Viol
 	// r=0: nobody subscribed to the service subject
 	cfg := vfParseMuxCfg(scn)
 	wait, responder := true, true
+	// frames: "2" the response of caller 2 on its own reply subject, "u" an op id nobody issued on a
+	// subject nobody listens to specifically, "1@2" the response of caller 1 published on caller 2's
+	// reply subject (a stray / misdirected message), "u@1" an unknown op id on caller 1's subject
+	type nmFrame struct{ op, subj int }
+	var frames []nmFrame
 	for _, kv := range strings.Split(scn, ",") {
-		switch kv {
-		case "w=0":
+		switch {
+		case kv == "w=0":
 			wait = false
-		case "r=0":
+		case kv == "r=0":
 			responder = false
+		case strings.HasPrefix(kv, "f="):
+			for _, tok := range strings.Split(strings.TrimPrefix(kv, "f="), ".") {
+				if tok == "" {
+					continue
+				}
+				parts := strings.SplitN(tok, "@", 2)
+				idx := func(s string) int {
+					if s == "u" {
+						return -1
+					}
+					n := 0
+					fmt.Sscanf(s, "%d", &n)
+					return n - 1
+				}
+				fr := nmFrame{op: idx(parts[0]), subj: idx(parts[0])}
+				if len(parts) == 2 {
+					fr.subj = idx(parts[1])
+				}
+				frames = append(frames, fr)
+			}
 		}
 	}
 	var st *vfNMState
@@ -84,18 +109,22 @@ func vfNatsMuxMake(scn string) (func(), func(*vsched.Exec) (string, *vsched.Viol
 				}
 			}
 		})
-		if responder && len(cfg.frames) > 0 {
+		if responder && len(frames) > 0 {
 			vsched.GoNamed("peer", false, func() {
 				if wait {
 					vsched.WaitUntil(reqObj, func() bool { return st.requests >= cfg.n })
 				}
-				for _, c := range cfg.frames {
+				for _, fr := range frames {
 					if vsched.Killed() {
 						return
 					}
-					op := "99"
+					c := fr.op
+					op, subjOp := "99", "99"
 					if c >= 0 && c < cfg.n {
 						op = st.callers[c].opid
+					}
+					if fr.subj >= 0 && fr.subj < cfg.n {
+						subjOp = st.callers[fr.subj].opid
 					}
 					mark := fmt.Sprintf("m%d", len(st.emitted))
 					frame := vfFrame(map[string]string{"_opid": op, "_cid": "x"}, []byte(mark))
@@ -125,7 +154,7 @@ func vfNatsMuxMake(scn string) (func(), func(*vsched.Exec) (string, *vsched.Viol
 						}
 						return nil
 					}
-					conn.Publish("inbox."+op, frame)
+					conn.Publish("inbox."+subjOp, frame)
 				}
 			})
 		}
@@ -292,6 +321,11 @@ func init() {
 				}
 			}
 			out = append(out, "n=2,t=1/5,w=1,f=", "n=2,t=1/5,r=0,f=", "n=1,t=5,r=0,f=")
+			// stray messages: a response published on another request's reply subject, an unknown op id
+			// on a live request's subject
+			for _, f := range []string{"1@2", "2@1", "u@1", "u@2", "1@2.2", "2@1.1", "1@2.1.2", "u@2.2", "1@u"} {
+				out = append(out, "n=2,t=1/5,w=1,f="+f)
+			}
 			if tier == "thorough" {
 				for _, f := range []string{"1.2.3", "3.3.1", "2.2.2", "1.1.2.3", "3.2.1.u"} {
 					out = append(out, "n=3,t=1/2/3,w=1,f="+f)
